@@ -34,17 +34,10 @@ def short(q):
     return (q or "?").split(":")[-1]
 
 
-PUBLIC = re.compile(r"^[A-Z]\w*\.(?!_)[A-Za-z]\w*(@set|@del)?$|^[A-Z]\w*\.__(setitem|delitem|getitem|contains)__$")
-
-
 def refusal_key(func, cls, explicit=True):
-    """findings are keyed by public API names only: private helpers may be renamed / extracted without changing behaviour"""
-    f = short(func)
-    f = f.split(".<locals>.")[0]
-    tail = "" if explicit else ":implicit"
-    if PUBLIC.match(f):
-        return "%s:%s%s" % (f, cls, tail)
-    return "%s%s" % (cls, tail)
+    """findings are keyed by the exception class only: the raise may sit in the public member or in any private helper,
+    and moving it (extracting / inlining / renaming a helper) does not change behaviour"""
+    return "%s%s" % (cls, "" if explicit else ":implicit")
 
 
 def write_key(op, key):
@@ -177,6 +170,12 @@ def run(M, rep, tier, only=None):
                     api, rk, sorted(set(wparams) - set(have[rk]))))
             else:
                 rep.ok(R2, ident)
+
+    # ---------------- R4 (shared with C01.R4): the h5py write after the creation cannot fail on a shape mismatch
+    R4 = rep.rule("C12.R4", "create_data_array refuses a shape argument that differs from the data's shape before creating anything", floor=8,
+                  technique="decision table of the shape guard evaluated on shape pairs (shared with C01.R4)")
+    from . import c01
+    c01.shape_guard_table(M, rep, R4)
 
     # ---------------- R3
     f = ctx.member("Block", "create_multi_tag")
